@@ -204,7 +204,7 @@ def check_transform(case, ctx):
             okany, fail = False, None
             for sense in (1.0, -1.0):
                 fail = None
-                for d, e, lat, ex in zip(case["shapes"], els, lats, exact_pts):
+                for ei_, (d, e, lat, ex) in enumerate(zip(case["shapes"], els, lats, exact_pts)):
                     if d["rational"]:
                         w_after = list(e.weights)
                         ctx.check(len(w_after) == len(d["W"]) and all(abs(x - y) <= 1e-12 for x, y in zip(w_after, d["W"])), "weights-changed",
@@ -226,7 +226,7 @@ def check_transform(case, ctx):
                         break
                     # sampled grid of the element
                     ev = [_un(q) for q in e.evalpts]
-                    gex = grid_exact[els.index(e)]
+                    gex = grid_exact[ei_]          # (by position: list.index would use the library's tolerance-based ==)
                     if len(ev) != len(gex):
                         fail = "after %r target %d: evalpts has %d points, expected %d" % (did, ti, len(ev), len(gex))
                         break
